@@ -44,6 +44,13 @@ class _Sink(logging.Handler):
         c = getattr(threading.current_thread(), "sim_client", None)
         if c is not None:
             c.log.append(rec)
+            lf = getattr(c, "log_fault", None)
+            if lf is not None and not lf["fired"]:
+                lf["seen"] += 1
+                if lf["seen"] >= lf["at"]:
+                    # fault: the application's log handler fails while handling this record
+                    lf["fired"] = True
+                    raise lf["exc"]
         else:
             _lock_free_records.append(rec)
 
@@ -91,16 +98,81 @@ def selection(sel: Any) -> Any:
     return tuple(pairs) if sel.get("form") == "tuple" else pairs
 
 
+class FaultySelection:
+    """A caller-supplied selection (a legal ``Sequence``) whose k-th access of any kind raises
+    the injected exception: a fault thrown by a caller-supplied object in the middle of a parse."""
+
+    def __init__(self, items: list[Any], at: int, exc: BaseException) -> None:
+        self._items = list(items)
+        self._at = at
+        self._exc = exc
+        self.accesses = 0
+        self.fired = False
+
+    def _touch(self) -> None:
+        self.accesses += 1
+        if not self.fired and self.accesses >= self._at:
+            self.fired = True
+            raise self._exc
+
+    def __contains__(self, x: Any) -> bool:
+        self._touch()
+        return x in self._items
+
+    def __iter__(self) -> Any:
+        self._touch()
+        return iter(list(self._items))
+
+    def __len__(self) -> int:
+        self._touch()
+        return len(self._items)
+
+    def __getitem__(self, i: Any) -> Any:
+        self._touch()
+        return self._items[i]
+
+    def __reversed__(self) -> Any:
+        self._touch()
+        return reversed(list(self._items))
+
+    def index(self, x: Any, *a: Any) -> int:
+        self._touch()
+        return self._items.index(x, *a)
+
+    def count(self, x: Any) -> int:
+        self._touch()
+        return self._items.count(x)
+
+
+try:
+    from collections.abc import Sequence as _Sequence
+
+    _Sequence.register(FaultySelection)
+except Exception:  # noqa: BLE001
+    pass
+
+
 def with_selection(sel: Any, fn: Any) -> Any:
     """Call fn(want_tracks object) and remember whether the callee mutated the caller's
     selection object (a caller may reuse it for the next parse)."""
     obj = selection(sel)
     snap = list(obj) if obj is not None else None
     _tls.sel_mutated = False
+    _tls.sel_fault_fired = False
+    call_obj = obj
+    fault = (sel or {}).get("fault") if isinstance(sel, dict) else None
+    if fault is not None and obj is not None:
+        call_obj = FaultySelection(list(obj), int(fault["at"]), fault["exc_obj"])
     try:
-        return fn(obj)
+        return fn(call_obj)
     finally:
+        if call_obj is not obj:
+            _tls.sel_fault_fired = call_obj.fired
         _tls.sel_mutated = obj is not None and list(obj) != snap
+
+
+def selection_fault_fired() -> bool:
+    return bool(getattr(_tls, "sel_fault_fired", False))
 
 
 def selection_was_mutated() -> bool:
